@@ -18,9 +18,69 @@ def has_model(name):
     return out[0] != "bad-op"
 
 
+SHARED = ["1.0.0", "1.0.0-alpha", "1.0", "1.0.0-1", "1.0.0-2", "1.0.0a", "1.0.0.1", "2.0.0", "1.0.0+1", "1.0.0~rc1", "1.0.0_p1",
+          "1.0.0-beta", "0.9", "1.0.0-rc1", "1.0.1", "1.0a1", "3.0.rc1", "1.01", "1.1", "1.10", "1.9", "1.0_p0", "1.0_p",
+          "1.0-r1", "1.0-r3", "1.00-r2", "2.0_rc1", "1.0.0-RC1"]
+
+_WARMED = [False]
+
+
+def shared_pairs(name):
+    ok = []
+    for t in SHARED:
+        try:
+            S.vclass(name)(t)
+            ok.append(t)
+        except Exception:  # noqa: BLE001
+            pass
+    return [(a, b) for a in ok for b in ok]
+
+
+def warm_cross(ctx):
+    """history across schemes, once per process and before any per-scheme stream: the same pairs of texts are
+    compared (six operators, both orders) and tested against single constraints under every scheme that accepts
+    them, interleaved — whatever a comparison routine or a constraint remembers by text is then stale for the next
+    scheme, and the per-scheme streams (which run the same pairs) see it"""
+    if _WARMED[0]:
+        return
+    _WARMED[0] = True
+    from univers.version_constraint import VersionConstraint
+    rng = ctx.rng("layera-warm")
+    objs = {}
+    for name in ALL:
+        for t in SHARED:
+            try:
+                objs[(name, t)] = S.vclass(name)(t)
+            except Exception:  # noqa: BLE001
+                pass
+    pairs = [(a, b) for a in SHARED for b in SHARED]
+    rng.shuffle(pairs)
+    names = list(ALL)
+    n = 0
+    for a, b in pairs:
+        rng.shuffle(names)
+        for name in names:
+            va, vb = objs.get((name, a)), objs.get((name, b))
+            if va is None or vb is None:
+                continue
+            n += 1
+            for f in (operator.lt, operator.le, operator.eq, operator.ne, operator.ge, operator.gt):
+                try:
+                    f(va, vb)
+                except Exception:  # noqa: BLE001
+                    pass
+            for c in ("<", "<=", "=", "!=", ">=", ">"):
+                try:
+                    va in VersionConstraint(comparator=c, version=vb)
+                except Exception:  # noqa: BLE001
+                    pass
+    ctx.stream("history:cross-scheme-warm-up")["evaluations"] = n
+
+
 def corr(ctx, name, n):
     """returns (stats, disagreements)"""
-    code, stats, dis = SC.run(name, n=n, seed=ctx.seed, verbose=False, structured=True)
+    warm_cross(ctx)
+    code, stats, dis = SC.run(name, n=n, seed=ctx.seed, verbose=False, structured=True, extra_pairs=shared_pairs(name))
     return stats, dis
 
 
@@ -57,6 +117,15 @@ def valid_pool(name, rng, size):
     out = []
     seen = set()
     tries = 0
+    # a few of the texts that several schemes share (the cross-scheme warm-up has already used them)
+    for t in rng.sample(SHARED, len(SHARED)):
+        if len(out) >= min(6, size // 3):
+            break
+        try:
+            out.append((t, S.vclass(name)(t)))
+            seen.add(t)
+        except Exception:  # noqa: BLE001
+            pass
     while len(out) < size and tries < size * 5:
         tries += 1
         try:
